@@ -255,10 +255,60 @@ def run_property(mod, tier, seed, jobs=None):
         for w in work:
             total.merge(_worker(w))
     else:
-        with ctx.Pool(min(jobs, len(work)), maxtasksperchild=1) as pool:
-            for part in pool.imap_unordered(_worker, work):
-                total.merge(part)
+        # one process per shard, at most `jobs` at a time. (multiprocessing.Pool waits forever for the result of a task
+        # whose worker was killed - out of memory, a crash of the interpreter -: here a worker that dies without a
+        # result is a harness error naming the shard and the exit code.)
+        pending = list(work)
+        running = []  # (process, parent_conn, work item)
+        while pending or running:
+            while pending and len(running) < min(jobs, len(work)):
+                w = pending.pop(0)
+                pc, cc = ctx.Pipe(duplex=False)
+                pr = ctx.Process(target=_worker_proc, args=(cc, w))
+                pr.start()
+                cc.close()
+                running.append((pr, pc, w))
+            progressed = False
+            for item in list(running):
+                pr, pc, w = item
+                try:
+                    ready = pc.poll(0)
+                except (OSError, EOFError):
+                    ready = True
+                if ready:
+                    try:
+                        part = pc.recv()
+                        total.merge(part)
+                    except (EOFError, OSError):
+                        pr.join(5)
+                        total.harness_errors.append("shard %r: worker died without a result (exit code %r)" % (w[1], pr.exitcode))
+                    pr.join(30)
+                    pc.close()
+                    running.remove(item)
+                    progressed = True
+                elif not pr.is_alive():
+                    # died: drain a result that may still be in the pipe
+                    try:
+                        if pc.poll(0.2):
+                            total.merge(pc.recv())
+                        else:
+                            total.harness_errors.append("shard %r: worker died without a result (exit code %r)" % (w[1], pr.exitcode))
+                    except (EOFError, OSError):
+                        total.harness_errors.append("shard %r: worker died without a result (exit code %r)" % (w[1], pr.exitcode))
+                    pc.close()
+                    running.remove(item)
+                    progressed = True
+            if not progressed:
+                time.sleep(0.05)
     return finish(mod, total, tier, seed, t0)
+
+
+def _worker_proc(conn, w):
+    try:
+        part = _worker(w)
+        conn.send(part)
+    finally:
+        conn.close()
 
 
 def finish(mod, total, tier, seed, t0):
